@@ -1,5 +1,7 @@
 (* OCaml driver for the extracted C10 trace checker (coq/Workers/Checker.v).
    usage: workers_driver <trace-file>          validate one H5 event trace
+          workers_driver --explore <parents, e.g. 0,1> <maxjob> <maxsearches>
+                                               exhaustive exploration: deadlock freedom and fair termination of the stop phase
           workers_driver --sim <seed> <n> <steps> [rand]
                                                random walk of the LTS (self-test of the model)
    Trace line format (lib/texellib/hw/verifsync.hpp):  <thread> <KIND> a b c d
@@ -226,8 +228,135 @@ let simulate seed n steps rand =
   done;
   Printf.printf "OK sim steps=%d searches=%d bestmoves=%d idle_checks=%d terminated=%b\n" !i (int_of_nat !s.sid) (int_of_nat !s.nbest) !nidle !term
 
+
+(* ---- exhaustive exploration of the LTS for a small tree with bounded jobs / searches:
+        deadlock freedom and fair termination of the stop phase (C10_stop_terminates) ---- *)
+let explore par_list maxjob maxsid =
+  let n = List.length par_list in
+  let par = Array.of_list (-1 :: par_list) in
+  let parent t = let i = int_of_nat t in if i >= 1 && i <= n then Some (nat_of_int par.(i)) else None in
+  let nn = nat_of_int n in
+  let kids t = List.filter (fun c -> par.(c) = t) (List.init n (fun i -> i + 1)) in
+  let acts t =
+    [AWait; APollEmpty; APop; ANotifySelf; AFinish; AMaxDepth; ARdQuit; ARdSearch; AInitSearch; AStartJob; ABest; AStopSearch; AClear]
+    @ List.map (fun x -> APush (nat_of_int x)) ((if t > 0 then [par.(t)] else []) @ kids t) in
+  let key ((s : state), (initdone : bool)) =
+    let ths = List.init (n + 1) (fun t -> let l = s.th (nat_of_int t) in
+      (l.pc, int_of_z l.job, l.hasres, l.self, int_of_z l.wc, int_of_z l.qa, int_of_nat l.se, int_of_nat l.ae)) in
+    let qs = List.init (n + 1) (fun t -> s.qu (nat_of_int t)) in
+    let fl = List.init (n + 1) (fun t -> s.flag (nat_of_int t)) in
+    Marshal.to_string (ths, qs, fl, s.search, s.quitf, s.ponder, s.epc, int_of_nat s.sid, int_of_nat s.nbest, initdone) [] in
+  let ids = Hashtbl.create 100000 in
+  let states = ref [||] and nstates = ref 0 in
+  let add s =
+    let k = key s in
+    match Hashtbl.find_opt ids k with
+    | Some i -> i
+    | None ->
+        let i = !nstates in
+        Hashtbl.add ids k i;
+        if i >= Array.length !states then states := Array.append !states (Array.make (max 1024 i) s);
+        !states.(i) <- s; incr nstates; i in
+  let succ = Hashtbl.create 100000 in    (* id -> (thread(-1 env) * target) list, state-changing only *)
+  let _ = add (tab init, false) in
+  let cur = ref 0 in
+  let in_stop ((s : state), _) = match (s.th O).pc with
+    | PStopNotify KAck | PFwd (FStop, KAck, _) | PPoll KAck | PWait KAck -> true | _ -> false in
+  while !cur < !nstates do
+    let i = !cur in incr cur;
+    let (s, initdone) = !states.(i) in
+    let out = ref [] in
+    let try_lb th lb =
+      match lstep nn parent s lb with
+      | Some s' ->
+          let s' = tab s' in
+          let d' = (match lb with LT (_, AInitSearch) -> true | LT (_, ARdSearch) -> false | _ -> initdone) in
+          let j = add (s', d') in
+          if j <> i then out := (th, j) :: !out
+      | None -> () in
+    for t = 0 to n do
+      List.iter (fun a ->
+        match a with
+        | AStartJob when int_of_z (s.th O).job >= maxjob -> ()
+        | AInitSearch when initdone -> ()     (* iterativeDeepening calls sendInitSearch at most once *)
+        | _ -> try_lb t (LT (nat_of_int t, a))) (acts t)
+    done;
+    if int_of_nat s.sid < maxsid then (try_lb (-1) (LE (EGo false)); try_lb (-1) (LE (EGo true)));
+    try_lb (-1) (LE ENotify); try_lb (-1) (LE EUnponder); try_lb (-1) (LE ESpur); try_lb (-1) (LE EQuit);
+    Hashtbl.replace succ i !out
+  done;
+  let ns = !nstates in
+  (* deadlock: a stop-phase state without a state-changing thread step *)
+  let dead = ref 0 and nstop = ref 0 in
+  for i = 0 to ns - 1 do
+    if in_stop !states.(i) then begin
+      incr nstop;
+      if not (List.exists (fun (t, _) -> t >= 0) (Hashtbl.find succ i)) then incr dead
+    end
+  done;
+  (* SCCs of the stop-phase subgraph (iterative Tarjan) *)
+  let index = Array.make ns (-1) and low = Array.make ns 0 and onst = Array.make ns false in
+  let comp = Array.make ns (-1) in
+  let idx = ref 0 and ncomp = ref 0 in
+  let stack = ref [] in
+  let sub i = List.filter (fun (_, j) -> in_stop !states.(j)) (Hashtbl.find succ i) in
+  for r = 0 to ns - 1 do
+    if in_stop !states.(r) && index.(r) < 0 then begin
+      let work = ref [(r, sub r)] in
+      index.(r) <- !idx; low.(r) <- !idx; incr idx; stack := r :: !stack; onst.(r) <- true;
+      while !work <> [] do
+        match !work with
+        | (v, []) :: rest ->
+            work := rest;
+            (match rest with (u, _) :: _ -> if low.(v) < low.(u) then low.(u) <- low.(v) | [] -> ());
+            if low.(v) = index.(v) then begin
+              let rec pop () = match !stack with
+                | w :: tl -> stack := tl; onst.(w) <- false; comp.(w) <- !ncomp; if w <> v then pop ()
+                | [] -> () in
+              pop (); incr ncomp
+            end
+        | (v, (_, w) :: es) :: rest ->
+            work := (v, es) :: rest;
+            if index.(w) < 0 then begin
+              index.(w) <- !idx; low.(w) <- !idx; incr idx; stack := w :: !stack; onst.(w) <- true;
+              work := (w, sub w) :: !work
+            end else if onst.(w) then (if index.(w) < low.(v) then low.(v) <- index.(w))
+        | [] -> ()
+      done
+    end
+  done;
+  (* fairness of every SCC that contains a cycle *)
+  let took = Array.make_matrix !ncomp (n + 1) false in
+  let always = Array.make_matrix !ncomp (n + 1) true in
+  let hasedge = Array.make !ncomp false in
+  for i = 0 to ns - 1 do
+    if comp.(i) >= 0 then begin
+      let c = comp.(i) in
+      let all = Hashtbl.find succ i in
+      for t = 0 to n do
+        if not (List.exists (fun (u, _) -> u = t) all) then always.(c).(t) <- false
+      done;
+      List.iter (fun (t, j) -> if comp.(j) = c then begin
+        hasedge.(c) <- true; if t >= 0 then took.(c).(t) <- true end) all
+    end
+  done;
+  let unfair_ok = ref 0 and fair_cycles = ref 0 in
+  for c = 0 to !ncomp - 1 do
+    if hasedge.(c) then begin
+      let starved = ref false in
+      for t = 0 to n do if always.(c).(t) && not took.(c).(t) then starved := true done;
+      if !starved then incr unfair_ok else incr fair_cycles
+    end
+  done;
+  Printf.printf "%s explore tree=[%s] maxjob=%d maxsearch=%d states=%d stop_states=%d deadlocks=%d cyclic_sccs=%d fair_cycles=%d\n"
+    (if !dead = 0 && !fair_cycles = 0 then "OK" else "BAD")
+    (String.concat "," (List.map string_of_int par_list)) maxjob maxsid ns !nstop !dead (!unfair_ok + !fair_cycles) !fair_cycles;
+  if !dead > 0 || !fair_cycles > 0 then exit 1
+
 let () =
   match Array.to_list Sys.argv with
+  | _ :: "--explore" :: tree :: mj :: ms :: _ ->
+      explore (if tree = "" then [] else List.map int_of_string (String.split_on_char ',' tree)) (int_of_string mj) (int_of_string ms)
   | _ :: "--sim" :: seed :: n :: steps :: rest ->
       simulate (int_of_string seed) (int_of_string n) (int_of_string steps) (rest <> [])
   | _ :: file :: _ ->
